@@ -30,7 +30,8 @@ RULE = ("(a) formatter: ALL 12-bit and ALL 16-bit values, each also as v+2^n, v-
         "(16/12/16 bits) and get_memory_table_entries() after every step. non-trivial = value with the sign bit set or "
         "needing zero padding; table with >=2 rows produced by unaligned byte/half writes; distinct = hash(case)"
         ' After each RISC-V program the used simulation is loaded twice more (no data / a data segment) and the tables '
-        'must show exactly the current memory.')
+        'must show exactly the current memory. Register rows are judged against the reference interpreter (x0 shows 0); a deterministic '
+        'family writes rows whose addresses are arithmetically related (4A, 2A, A/4, A+2^k) in both orders.')
 ASSUMPTIONS = ["TOY representations are blank while no program is loaded (the UI blanks them): only loaded simulations are judged"]
 M32 = 0xFFFFFFFF
 
@@ -122,9 +123,15 @@ def check_fmt32(case, stats):
     stats.count(case, nt, {"fmt32"}, sample_tag="fmt32")
 
 
-def _check_reg_table(case, sim, where):
+def _check_reg_table(case, sim, where, ref_regs=None):
+    """The table must show the ARCHITECTURAL registers: what the reference interpreter holds (single-cycle, lock-step), else
+    what reading register i through the register file's index operator gives - and x0 is zero by definition."""
     rows = sim.get_register_entries()
-    regs = rvdrive.regs_of(sim)
+    if ref_regs is not None:
+        regs = [int(v) & M32 for v in ref_regs]
+    else:
+        rf = sim.state.register_file.registers
+        regs = [0] + [int(rf[i]) & M32 for i in range(1, 32)]
     if len(rows) != 32:
         raise Violation("register-table-rows", case, f"{where}: {len(rows)} rows")
     for i in range(32):
@@ -154,7 +161,7 @@ def check_rv(case, stats):
             if e is not None and e.fault is not None:
                 break
         where = f"after step {n}"
-        _check_reg_table(case, sim, where)
+        _check_reg_table(case, sim, where, None if five else ref.regs)
         rows = sim.get_data_memory_entries()
         addrs = [r[0][0] for r in rows]
         if addrs != sorted(addrs) or len(set(addrs)) != len(addrs):
@@ -294,6 +301,22 @@ def store_pattern_cases():
                    "mem": {}, "prog": [[o1, 8, 1, f1], [o2, 8, 2, f2], [o3, 8, 3, f3]]}
 
 
+def related_address_cases():
+    """Deterministic: tables with rows whose ADDRESSES are arithmetically related (W = 4A, 2A, A/4, A + 2^k, 4A + small, ...),
+    written in both orders with byte and word stores - a table keyed or de-duplicated in the wrong unit (byte address vs word
+    or block number) loses or merges such rows."""
+    B = rvprog.B
+    for A in (B, B + 4, B + 0x20, 0x10000, 0x10010, 0x40000):
+        rel = sorted({4 * A, 4 * A + 4, 4 * A + 16, 2 * A, A + 0x1000, A // 4 if A // 4 >= B else A + 8, A + (1 << 16), 4 * (A + 4), 8 * A} - {A})
+        for Wd in rel:
+            for first_a in (True, False):
+                for sop, off in (("sw", 0), ("sb", 3), ("sh", 2)):
+                    stores = [["sw", 5, 7, 0], [sop, 6, 7, off]]
+                    yield {"kind": "rv", "mode": "single" if first_a else "five", "dcache": None, "max": 20,
+                           "regs": {"5": A, "6": Wd, "7": 0x80C3A55A}, "mem": {},
+                           "prog": (stores if first_a else stores[::-1]) + [["sb", 5, 7, 5], ["sw", 6, 7, 4]]}
+
+
 def toy_case():
     return c06.program_case().map(lambda c: dict(c, kind="toy", max=40, via_text=False))
 
@@ -315,6 +338,7 @@ def shards(tier, seed):
     for lo in range(0, 65536, 8192):
         items.append({"what": "fmt", "n": 16, "lo": lo, "hi": lo + 8192})
     items.append({"what": "stores"})
+    items.append({"what": "related"})
     for i in range(1 if tier == "quick" else 8):
         items.append({"what": "datatable", "n": 250 if tier == "quick" else 1500, "seed": seed * 1000 + 70 + i})
     if tier == "quick":
@@ -344,6 +368,8 @@ def run_shard(item, stats):
     elif w == "stores":
         core.run_cases(store_pattern_cases(), check, stats, km)
         stats.exhaustive_parts.append("all ordered pairs (and byte triples) of sub-word/word stores into one word at 3 bases")
+    elif w == "related":
+        core.run_cases(related_address_cases(), check, stats, km)
     elif w == "fmt32":
         core.hyp_search(fmt32_case(), check, stats, item["n"], item["seed"], km)
     elif w == "rv":
